@@ -144,6 +144,7 @@ func init() {
 			c.rulesC08ver()
 			c.rulesC08nb()
 			c.rulesR3mark()
+			c.rulesR3neg()
 			c.rule("C08.imm", "fault recovery never mutates in place a slice aliasing Machine.activeStates (the old set is needed to decide which states tick during rollback)")
 			c.inPlaceAliasLint("C08.imm", a.fActive, []string{pm}, 5)
 		}
@@ -184,6 +185,7 @@ func init() {
 	}, func(c *Ctx) {
 		c.rulesC09(c.lockAnalysis())
 		c.rulesC09x()
+		c.rulesR3push()
 	})
 	register("C10", propInfo{
 		Explanation: "Narrow structural claim (round-trip equality is value level and is not decided): (narrow) no unguarded narrowing conversion of tick / queue-tick / machine-tick data in the update encoder; (space) both encoders index the snapshots' mTime, and compare against their length, only through the pushed index, and agree with each other; (sum) one Checksum used by producer and verifier; (dec) the decoder bounds-checks each index; (chk) the client applies the decoded clock only under Checksum(post-update values) == message checksum and returns false on mismatch.",
